@@ -16,6 +16,7 @@ unsigned long skv_mon_failed(void);
 size_t skv_mon_nonzero_off(void);
 size_t skv_mon_nonzero_bytes(void);
 size_t skv_mon_last_free_size(void);
+void skv_mon_align_mode(int m);
 size_t skv_mon_block_nonzero(const void *inner, size_t *size, size_t *tail_nonzero, size_t tail);
 }
 
@@ -29,7 +30,7 @@ struct MonHooks : ExecHooks {
     unsigned long seen_double = 0, seen_foreign = 0, seen_nonzero = 0, seen_failed = 0;
     bool check_live = true;
 
-    void reset() { skv_mon_reset(); seen_double = seen_foreign = seen_nonzero = seen_failed = 0; cleanups_of_live = rich_cleanups = 0; max_nonzero_before = 0; block_sizes.clear(); }
+    void reset(int align_mode = 0) { skv_mon_align_mode(align_mode); skv_mon_reset(); seen_double = seen_foreign = seen_nonzero = seen_failed = 0; cleanups_of_live = rich_cleanups = 0; max_nonzero_before = 0; block_sizes.clear(); }
 
     void call_pre(const Op &op) override {
         long long k = op.geti("failat", 0);
